@@ -20,6 +20,8 @@ RULE = ('configured x proposed hold in {0,3,4,9,30,90,180,65535}; phases: establ
 ASSUMPTIONS = [
     'tolerance 1e-6 s on H/3 (floating point division); the simulator fires a timer exactly at its due time',
     'when an arrival coincides with the hold expiry both orders are generated and the expectation follows the order',
+    'an "UPDATE that arrives" is any UPDATE message the agent keeps the session up for: well-formed ones of every address '
+    'family (vlib/corpus) and body-malformed ones, which this agent tolerates (C10)',
 ]
 EXHAUSTIVE = {'quick': False, 'thorough': False}
 HOLDS = [0, 3, 4, 9, 30, 90, 180, 65535]
@@ -47,6 +49,9 @@ def arrival_msg(kind, i):
     """'K' KEEPALIVE, 'U' the small marked IPv4 UPDATE, 'U:<k>' well-formed UPDATE body k of vlib.corpus"""
     if kind == 'K':
         return rc.keepalive()
+    if kind == 'UM':
+        # an UPDATE whose body fails the agent's checks (ORIGIN 5): tolerated (C10) and still an UPDATE that arrived
+        return ss.marked_update(i + 1, malformed=True)[0]
     if kind.startswith('U:'):
         bodies = corpus.update_bodies()
         return rc.frame(rc.UPDATE, bodies[int(kind[2:]) % len(bodies)][1])
@@ -207,7 +212,7 @@ def audit(sim, c, H, t_oc, end, dead_at):
 GAPS = ['H-e', 'H', 'H+e', 'H/3-e', 'H/3', 'H/3+e', '0', 'small', '2H/3', 'H/2']
 NBODIES = len(corpus.update_bodies())
 arrival = st.tuples(st.sampled_from(GAPS + ['H-e', 'H', '2H/3', 'H/2']),
-                    st.one_of(st.sampled_from(['K', 'U']), st.integers(0, NBODIES - 1).map(lambda k: 'U:%d' % k)),
+                    st.one_of(st.sampled_from(['K', 'U', 'UM']), st.integers(0, NBODIES - 1).map(lambda k: 'U:%d' % k)),
                     st.sampled_from(['msg', 'timer'])).map(list)
 case_strategy = st.fixed_dictionaries({
     'conf': st.sampled_from(HOLDS), 'prop': st.sampled_from(HOLDS), 'conf_ka': st.sampled_from([60, 60, 1, 7, 600]),
@@ -226,7 +231,7 @@ def nontrivial(case):
 
 
 def shards(tier):
-    out = [{'name': 'schedules-%d' % i, 'kind': 'hyp', 'examples': 200 if tier == 'quick' else 40000, 'hypothesis': True}
+    out = [{'name': 'schedules-%d' % i, 'kind': 'hyp', 'examples': 600 if tier == 'quick' else 40000, 'hypothesis': True}
            for i in range(12 if tier == 'quick' else 16)]
     out.append({'name': 'grid', 'kind': 'grid'})
     return out
@@ -248,10 +253,10 @@ def run_shard(spec, seed, col, tier):
                             col.case(case, nontrivial(case), labels=['grid', 'phase:' + phase])
                             for sig, detail in res:
                                 col.fail(sig, case, detail)
-        # every kind of well-formed UPDATE alone keeps a session alive (arrivals at 2H/3 for three hold times)
-        for k in range(NBODIES):
+        # every kind of UPDATE alone keeps a session alive (arrivals at 2H/3 for three hold times)
+        for kind_ in ['UM'] + ['U:%d' % k for k in range(NBODIES)]:
             for conf in (9, 180):
-                case = {'conf': conf, 'prop': conf, 'phase': 'est', 'eps': 0.001, 'schedule': [['2H/3', 'U:%d' % k, 'msg']] * 5,
+                case = {'conf': conf, 'prop': conf, 'phase': 'est', 'eps': 0.001, 'schedule': [['2H/3', kind_, 'msg']] * 5,
                         'conf_ka': 60, 'ka_delay': '0'}
                 res = run_case(case)
                 col.case(case, True, labels=['grid-update-kinds'])
